@@ -63,7 +63,7 @@ SlRestore(t) == /\ owner = NONE
 WCreate(t) == /\ alive' = [alive EXCEPT ![t] = TRUE] /\ flag' = [flag EXCEPT ![t] = FALSE]
               /\ woken' = [woken EXCEPT ![t] = NONE] /\ notified' = [notified EXCEPT ![t] = FALSE]
               /\ resumed' = [resumed EXCEPT ![t] = -1]
-WEnq(t, prio) == /\ owner = t /\ wq' = IF prio = 1 THEN <<t>> \o wq ELSE Append(wq, t)
+WEnq(t, prio) == /\ owner = t /\ wq' = IF prio # 0 THEN <<t>> \o wq ELSE Append(wq, t)        \* any non-zero priority goes to the front
 EvWLock(t) == mown[t] = NONE /\ mown' = [mown EXCEPT ![t] = t]
 \* predicate evaluation under the event mutex; a parked thread first wakes and re-locks
 EvTest(t) ==
